@@ -236,6 +236,81 @@ theorem describe_eq_shown (fmt : Format) (p : ConfigPub) (s : Secrets) (hp : p.o
     Option.map_some, shown, shownLines]
   cases fmt <;> rfl
 
+/-! ### error texts that render a flag value -/
+
+theorem firstRejected_none_of_mapOpt (k : Kind) (raws vs : List Bytes)
+    (h : mapOpt (describeValue k) raws = some vs) : firstRejected k raws = none := by
+  induction raws generalizing vs with
+  | nil => rfl
+  | cons r rs ih =>
+    cases hr : describeValue k r with
+    | none => simp [mapOpt, hr] at h
+    | some v =>
+      cases hrs : mapOpt (describeValue k) rs with
+      | none => simp [mapOpt, hr, hrs] at h
+      | some ws => simp [firstRejected, hr, ih ws hrs]
+
+/-- an admissible configuration has no rejected value, whatever the secrets are -/
+theorem flagErrors_admissible (p : ConfigPub) (s : Secrets) (hp : p.ok) (hs : s.ok) :
+    flagErrors (settings ⟨p, s⟩) = [] := by
+  obtain ⟨hba, haba, hpx, hcr, htc, htk, hmc, hmk, hca⟩ := hp
+  have e1 := firstRejected_none_of_mapOpt .userinfo _ _
+    (mapOpt_optRaw .userinfo UserPub.raw UserPub.shown p.apiBasicAuth s.apiBasicAuth
+      (fun a ha => describe_userinfo a _ (haba a ha)))
+  have e2 := firstRejected_none_of_mapOpt .userinfo _ _
+    (mapOpt_optRaw .userinfo UserPub.raw UserPub.shown p.basicAuth s.basicAuth
+      (fun a ha => describe_userinfo a _ (hba a ha)))
+  have e3 := firstRejected_none_of_mapOpt .file _ _
+    (mapOpt_rawsFrom .file FilePub.raw FilePub.shown p.cacerts 0 s.cacerts
+      (fun a ha pw => describe_file a pw (hca a ha)))
+  have e4 := firstRejected_none_of_mapOpt .hostPortUser _ _
+    (mapOpt_rawsFrom .hostPortUser CredPub.raw CredPub.shown p.credentials 0 s.credentials
+      (fun a ha pw => describe_cred a pw (hcr a ha)))
+  have e5 := firstRejected_none_of_mapOpt .file _ _
+    (mapOpt_optRaw .file FilePub.raw FilePub.shown p.mitmCert s.mitmCert
+      (fun a ha => describe_file a _ (hmc a ha)))
+  have e6 := firstRejected_none_of_mapOpt .file _ _
+    (mapOpt_optRaw .file FilePub.raw FilePub.shown p.mitmKey s.mitmKey
+      (fun a ha => describe_file a _ (hmk a ha)))
+  have e7 := firstRejected_none_of_mapOpt .proxyURL _ _
+    (mapOpt_optRaw .proxyURL ProxyPub.raw ProxyPub.shown p.proxy s.proxy
+      (fun a ha => describe_proxy a _ (hpx a ha) hs))
+  have e8 := firstRejected_none_of_mapOpt .file _ _
+    (mapOpt_optRaw .file FilePub.raw FilePub.shown p.tlsCert s.tlsCert
+      (fun a ha => describe_file a _ (htc a ha)))
+  have e9 := firstRejected_none_of_mapOpt .file _ _
+    (mapOpt_optRaw .file FilePub.raw FilePub.shown p.tlsKey s.tlsKey
+      (fun a ha => describe_file a _ (htk a ha)))
+  simp [flagErrors, settings, e1, e2, e3, e4, e5, e6, e7, e8, e9]
+
+theorem escape_plain (s : Bytes) (h1 : (34 : UInt8) ∉ s) (h2 : (92 : UInt8) ∉ s) :
+    (s.flatMap fun c => if c == 34 || c == 92 then [92, c] else [c]) = s := by
+  induction s with
+  | nil => rfl
+  | cons x xs ih =>
+    have hx1 : x ≠ 34 := fun e => h1 (by simp [e])
+    have hx2 : x ≠ 92 := fun e => h2 (by simp [e])
+    have hr := ih (fun m => h1 (List.mem_cons_of_mem _ m)) (fun m => h2 (List.mem_cons_of_mem _ m))
+    have hc : (x == 34 || x == 92) = false := by simp [hx1, hx2]
+    rw [List.flatMap_cons, hr, hc]
+    rfl
+
+/-- a value without `"` and `\` is quoted as itself between two `"` -/
+theorem quoteAscii_plain (s : Bytes) (h1 : (34 : UInt8) ∉ s) (h2 : (92 : UInt8) ∉ s) :
+    quoteAscii s = 34 :: s ++ [34] := by
+  unfold quoteAscii
+  rw [escape_plain s h1 h2]
+
+theorem infix_echoedValue (src : Source) (slice : Bool) (raw : Bytes)
+    (h1 : (34 : UInt8) ∉ raw) (h2 : (92 : UInt8) ∉ raw) : raw <:+: echoedValue src slice [raw] := by
+  have hq : raw <:+: quoteAscii raw := by
+    rw [quoteAscii_plain raw h1 h2]
+    exact ⟨[34], [34], by simp⟩
+  cases src <;> cases slice <;> simp only [echoedValue, joinWith, List.map]
+  all_goals first
+    | exact hq
+    | exact hq.trans ⟨[91], [93], by simp⟩
+
 /-! ### infix facts -/
 
 theorem infix_mid (a x b : Bytes) : x <:+: a ++ x ++ b := ⟨a, b, rfl⟩
